@@ -36,6 +36,8 @@ class Cfg(object):
         self.ok_w = 14           # weight of "ok" among item outcomes (err and unset weigh 1 each)
         self.fault_leaf_w = 1    # weight of each failing non-item leaf kind among plain leaves (items weigh 6)
         self.empty_structs = True
+        self.cancels = False     # statements that cancel the pending batch of a kind (a client discarding its batch)
+        self.reyield = False     # a later statement yields the very same object an earlier yield statement yielded
         self.batch_free = False  # C15: only constant futures / None / plain tasks as leaves
         self.probes = False      # C15: statements that try a plain synchronous call of an @asynq() function
         self.__dict__.update(kw)
@@ -292,9 +294,41 @@ def shape_stagger(s):
     return mktask(s, [ystmt(s, ["L", members])])
 
 
+def shape_ctxcomb(s):
+    """several concurrently pending tasks, each inside a context block that spans flushes, with reads
+    before / between / after the yields, some nested: overrides of the same value overlap in time"""
+    cfg = s.cfg
+    allowed = [c for c in cfg.ctx] or ["rec"]
+    k = s.int(2, 4)
+    kind = s.pick(cfg.kinds)
+    members = []
+
+    def rd():
+        if not cfg.reads:
+            return []
+        return [{"op": "read", "sv": s.int(0, 1)}] if s.chance(2) else []
+    for _ in range(k):
+        inner = rd() + seq_items(s, 1, kind if s.chance(2) else None) + rd()
+        if s.chance(2):
+            inner += seq_items(s, 1, kind if s.chance(2) else None) + rd()
+        if s.chance(3) and s.budget > 0:
+            child = mktask(s, rd() + seq_items(s, 1) + rd())
+            inner.append(ystmt(s, ["task", child]))
+            inner += rd()
+        block = {"op": "with", "ctx": gen_ctx(s, allowed), "body": inner}
+        if s.chance(3):
+            block = {"op": "with", "ctx": gen_ctx(s, allowed), "body": rd() + [block] + rd()}
+        body = seq_items(s, s.int(0, 2), kind) + rd() + [block] + rd()
+        members.append(["task", mktask(s, body)])
+    root_body = rd() + [ystmt(s, ["L", members])] + rd()
+    if s.chance(2):
+        root_body = [{"op": "with", "ctx": gen_ctx(s, allowed), "body": root_body}] + rd()
+    return mktask(s, root_body)
+
+
 SHAPES = {
     "chain": shape_chain, "tree": shape_tree, "comb": shape_comb, "diamond": shape_diamond,
-    "reentry": shape_reentry, "stagger": shape_stagger, "free": lambda s: task(s, 0),
+    "reentry": shape_reentry, "stagger": shape_stagger, "ctxcomb": shape_ctxcomb, "free": lambda s: task(s, 0),
 }
 
 
@@ -349,6 +383,9 @@ def decorate_task(s, t, shared_ids):
     if cfg.faults and s.chance(12):
         pos_body = pick_block(s, body)
         pos_body.insert(s.int(0, len(pos_body)), {"op": "raise", "sid": s.sid()})
+    if cfg.cancels and s.chance(8):
+        pos_body = pick_block(s, body)
+        pos_body.insert(s.int(0, len(pos_body)), {"op": "cancel", "kind": s.pick(cfg.kinds)})
     if cfg.probes and s.chance(5):
         pos_body = pick_block(s, body)
         pos_body.insert(s.int(0, len(pos_body)), {"op": "probe"})
@@ -439,6 +476,26 @@ def priorities(s):
     return out
 
 
+def add_reyields(s, root):
+    """a later statement of the same statement list yields the very same object again"""
+    nid = [0]
+    for t in tasks_of(root):
+        lists = [t["body"]]
+        while lists:
+            body = lists.pop()
+            i = 0
+            while i < len(body):
+                st_ = body[i]
+                if st_["op"] in ("with", "try"):
+                    lists.append(st_["body"])
+                elif st_["op"] == "yield" and st_["y"] is not None and s.chance(6):
+                    nid[0] += 1
+                    st_["yid"] = nid[0]
+                    j = s.int(i + 1, len(body))
+                    body.insert(j, {"op": "reyield", "yid": nid[0], "catch": st_["catch"] or s.chance(2)})
+                i += 1
+
+
 def hoist_mk(root):
     """``mk`` statements always execute first in their task, whatever decoration wrapped them in"""
     for t in tasks_of(root):
@@ -473,10 +530,12 @@ def programs(draw, cfg):
     if cfg.dag and s.chance(3):
         add_own_refs(s, root)
     hoist_mk(root)
+    if cfg.reyield:
+        add_reyields(s, root)
     prog = {"root": root, "shape": shape, "prio": priorities(s), "faults": [], "conv": s.pick(cfg.convs), "nsv": 2}
     if cfg.flush_faults and s.chance(3):
         for _ in range(s.int(1, 2)):
-            prog["faults"].append([s.pick(cfg.kinds), s.int(0, 2), s.pick(cfg.flush_faults)])
+            prog["faults"].append([s.pick(cfg.kinds), s.pick([0, 0, 0, 1, 1, 2]), s.pick(cfg.flush_faults)])
     return prog
 
 
